@@ -357,6 +357,20 @@ fn run_job(job: &Job) -> Value {
         };
         Coll::Map(m.with_collector(collector(job.batch)))
     });
+    // initial table length and the addresses of the table / next_table fields (for step-level conformance)
+    let (n0, fields) = sched::suppressed(|| match &*coll {
+        Coll::Map(m) => {
+            let g = m.guard();
+            let sn = m.verif_snapshot(&g);
+            (sn.tables.first().map(|t| t.bins.len()).unwrap_or(0), m.verif_field_addrs())
+        }
+        Coll::Set(s) => {
+            let g = s.verif_map().guard();
+            let sn = s.verif_map().verif_snapshot(&g);
+            (sn.tables.first().map(|t| t.bins.len()).unwrap_or(0), s.verif_map().verif_field_addrs())
+        }
+    });
+    exec.log(json!({"e": "layout", "n0": n0, "table": fields.0, "next_table": fields.1}));
     if job.rec.iter().any(|r| r == "mem") {
         let c2 = coll.clone();
         let f: sched::ReachFn = Box::new(move || match &*c2 {
